@@ -140,6 +140,12 @@ struct Secrets {
         QMessageAuthenticationCode hmac(QCryptographicHash::Sha256, tok);
         hmac.addData("Initiator");
         add("token-ht", (user + QByteArray(1, '\0') + hmac.result()).toBase64());
+        // the token a scripted <success/> may hand out (FAST token rotation): the next SASL2 exchange uses it
+        const QByteArray tok2 = QByteArrayLiteral("N3wTokenFromServer");
+        add("token2", tok2);
+        QMessageAuthenticationCode hmac2(QCryptographicHash::Sha256, tok2);
+        hmac2.addData("Initiator");
+        add("token2-ht", (user + QByteArray(1, '\0') + hmac2.result()).toBase64());
     }
     std::string find(const QByteArray &hay) const
     {
